@@ -66,6 +66,31 @@ func sharedEval(name, src string, n int, opts func(t int) []fhirpath.EvaluateOpt
 	}}
 }
 
+// mixedEval: every thread evaluates an expression of its own on the shared resource - what one evaluation does to
+// anything process-wide (a table, a memo, a setting of a library underneath) must not show in another
+func mixedEval(name string, srcs ...string) Scenario {
+	return Scenario{Name: name, Setup: func() *Instance {
+		res := lib.Patient()
+		in := []fhir.Resource{res}
+		before := finger(res)
+		inst := &Instance{Intact: func() string {
+			if finger(res) != before {
+				return "shared input resource changed"
+			}
+			return ""
+		}}
+		for t, src := range srcs {
+			e, err := fhirpath.Compile(src)
+			if err != nil {
+				panic("scenario " + name + ": " + err.Error())
+			}
+			t := t
+			inst.Threads = append(inst.Threads, func() string { return show(e.Evaluate(in, pinned(t)...)) })
+		}
+		return inst
+	}}
+}
+
 func pinned(t int) []fhirpath.EvaluateOption {
 	return []fhirpath.EvaluateOption{evalopts.OverrideTime(lib.PinnedNow.Add(time.Duration(t) * time.Hour)), evalopts.EnvVariable("v", system.Integer(int32(t+1))), evalopts.EnvVariable("who", system.String(fmt.Sprintf("T%d", t)))}
 }
@@ -154,6 +179,11 @@ func All() []Scenario {
 				},
 			}}
 		}},
+		mixedEval("S6-division-scales", "0.00000000000000000007 / 2.0", "1 / 3"),
+		mixedEval("S6-division-decimal", "10.0 / 3.0", "0.000000000000000000000001 / 7"),
+		mixedEval("S6-conversions", "'3 days'.toQuantity('hours')", "'3 days'.toQuantity()"),
+		mixedEval("S6-types", "Patient.name.first() is HumanName", "Patient.telecom.first() is HumanName"),
+		mixedEval("S6-strings", "'abc'.matches('a.c') and 'xbc'.replaceMatches('b', 'y') = 'xyc'", "'abd'.matches('a.c$') and Patient.name.family.first().upper() = 'SMITH'"),
 		sharedEval("S5-three-threads", "Patient.name.where(family = 'Smith').select(given.first() & %who)", 3, pinned),
 	}
 }
